@@ -31,7 +31,8 @@
          rounded; n = 8, 27: `n ** (1.0/3)` = 2.0, 3.0), `delta / (delta / K)` rounds to K or to the
          float just above K, and numpy then returns K + 1 bins.  Which one depends on the RANGE of
          the data (e.g. n = 64, range [3.6509682605834275, 5.683774335864077]: 8 bins, not 7).
-         The model computes the two roundings exactly.
+         The model computes the two roundings exactly (proved: the result is K or K + 1,
+         NumpyRulesProps.bins_at_exact_point_range / np_nbins_bound).
        * n = k^3, k >= 4: Python's `n ** (1.0/3)` is STRICTLY below k (1.0/3 < 1/3; checked in the
          harness for every k < 200000), c <= pred(2k), and then delta / rnd(delta / c) <= 2k + ulp/4
          rounds to at most 2k: numpy returns 2k = the exact value for every range.
